@@ -38,7 +38,29 @@ def install_clock(module, clock):
         shim.perf_counter = shim.time
         shim.sleep = lambda s: clock.advance(s)
         module.time = shim
+    _virtualize_dataclass_defaults(module, VDateTime, real)
     return VDateTime
+
+
+def _virtualize_dataclass_defaults(module, vdt, real):
+    """`field(default_factory=datetime.now)` binds the real clock when the class is defined; re-point those factories (closure cells of the generated __init__)
+    at the virtual clock, for the dataclasses defined in this module."""
+    for obj in list(vars(module).values()):
+        if not (isinstance(obj, type) and getattr(obj, "__module__", None) == module.__name__ and hasattr(obj, "__dataclass_fields__")):
+            continue
+        init = obj.__dict__.get("__init__")
+        if init is None or not getattr(init, "__closure__", None):
+            continue
+        for name, cell in zip(init.__code__.co_freevars, init.__closure__):
+            if not name.startswith("__dataclass_dflt_"):
+                continue
+            try:
+                f = cell.cell_contents
+            except ValueError:
+                continue
+            owner = getattr(f, "__self__", None)
+            if isinstance(owner, type) and issubclass(owner, real) and getattr(f, "__name__", "") in ("now", "utcnow"):
+                cell.cell_contents = getattr(vdt, f.__name__)
 
 
 class SelfDeadlock(BaseException):
